@@ -1,6 +1,6 @@
 From Coq Require Import Lia.
 From Coercion.Base Require Import Plan.
-From Coercion.Builder Require Import Model Spec Proofs ProofsPhases ProofsSteps ProofsActs ProofsLevels ProofsSession.
+From Coercion.Builder Require Import Model ModelPreB3 Spec Proofs ProofsPhases ProofsSteps ProofsActs ProofsLevels ProofsSession.
 
 (* ------------------------------------------------------------------ the stickiness monitor *)
 Definition mon_of (s : st) : mon := {| m_cur := err s; m_emitted := emitted s |}.
@@ -18,17 +18,21 @@ Proof.
   - now intros ->.
   - intros e -> ->. reflexivity.
   - intros s'. destruct (emitted s) eqn:Hm.
-    + intros H. injection H as <-. exact Hm.
+    + intros H. injection H as <-. unfold set_err. destruct (err s); exact Hm.
     + destruct (err s) eqn:He.
       * intros H. injection H as <-. exact Hm.
       * intros H. now apply Hb.
 Qed.
 
+Lemma emitted_set_err e s : emitted (set_err e s) = emitted s.
+Proof. unfold set_err. now destruct (err s). Qed.
+
 Ltac crush_body :=
+  unfold fail;
   repeat match goal with
          | |- context [match ?x with _ => _ end] => destruct x
          end;
-  intros H; try discriminate H; injection H as <-; reflexivity.
+  intros H; try discriminate H; injection H as <-; rewrite ?emitted_set_err; reflexivity.
 
 Lemma up_like i s : mutator_like i s (up i s).
 Proof. apply guarded_like. intros s'. crush_body. Qed.
@@ -50,26 +54,33 @@ Proof.
   intros Hc [F1 [F2 F3]] Hp. destruct o as [s'|]; [|cbn in Hp; congruence].
   cbn [mut fst snd]. specialize (F3 s' eq_refl).
   assert (G : forall r, r = {| r_ret := of_err (err s'); r_plan := None; r_after := err s' |} ->
-              (if m_emitted (mon_of s) then
-                 if is_uae (r_ret r) && is_none (r_plan r) && rclass_eqb (r_ret r) (of_err (r_after r))
-                 then Some {| m_cur := r_after r; m_emitted := true |} else None
-               else match m_cur (mon_of s) with
-                    | Some e => if rclass_eqb (r_ret r) (RErr e) && is_none (r_plan r) && oerror_eqb (r_after r) (Some e)
-                                then Some (mon_of s) else None
-                    | None => if rclass_eqb (r_ret r) (of_err (r_after r)) && is_none (r_plan r)
-                              then Some {| m_cur := r_after r; m_emitted := false |} else None
-                    end) = Some (mon_of s')).
+              match m_cur (mon_of s) with
+              | Some e => if rclass_eqb (r_ret r) (RErr e) && is_none (r_plan r) && oerror_eqb (r_after r) (Some e)
+                          then Some (mon_of s) else None
+              | None =>
+                if m_emitted (mon_of s) then
+                  if is_uae (r_ret r) && is_none (r_plan r) && rclass_eqb (r_ret r) (of_err (r_after r))
+                  then Some {| m_cur := r_after r; m_emitted := true |} else None
+                else if rclass_eqb (r_ret r) (of_err (r_after r)) && is_none (r_plan r)
+                     then Some {| m_cur := r_after r; m_emitted := false |} else None
+              end = Some (mon_of s')).
   { intros r ->. cbn [r_ret r_plan r_after mon_of m_emitted m_cur is_none].
-    destruct (emitted s) eqn:Hm.
-    - specialize (F1 eq_refl). injection F1 as ->. cbn [err set_err with_err of_err is_uae andb rclass_eqb].
-      rewrite error_eqb_refl. unfold mon_of. simpl. now rewrite Hm.
-    - destruct (err s) as [e|] eqn:He.
-      + specialize (F2 e eq_refl eq_refl). injection F2 as ->. rewrite He. cbn [of_err rclass_eqb oerror_eqb].
-        rewrite error_eqb_refl. reflexivity.
+    destruct (err s) as [e|] eqn:He.
+    - (* an error is in force: nothing changes *)
+      assert (s' = s) as ->.
+      { destruct (emitted s) eqn:Hm.
+        - specialize (F1 eq_refl). rewrite (set_err_stuck _ e s He) in F1. now injection F1.
+        - specialize (F2 e eq_refl eq_refl). now injection F2. }
+      rewrite He. cbn [of_err rclass_eqb oerror_eqb]. rewrite error_eqb_refl. unfold mon_of. now rewrite He.
+    - destruct (emitted s) eqn:Hm.
+      + specialize (F1 eq_refl). injection F1 as ->.
+        assert (E : err (set_err (EUseAfterEmit, i) s) = Some (EUseAfterEmit, i)) by (unfold set_err; now rewrite He).
+        rewrite E. cbn [of_err is_uae andb rclass_eqb]. rewrite error_eqb_refl. unfold mon_of. now rewrite E, F3.
       + rewrite rclass_eqb_refl. unfold mon_of. now rewrite F3. }
   specialize (G _ eq_refl).
   unfold mon_step. cbn [r_ret].
-  destruct c as [a| |t k|a|q|a|]; try discriminate Hc; destruct (err s') as [e'|]; cbn [of_err] in *; exact G.
+  destruct c as [a| |t k|a|q|a|]; try discriminate Hc; destruct (err s') as [e'|]; cbn [of_err] in *;
+    destruct (m_cur (mon_of s)); try exact G; destruct (m_emitted (mon_of s)); exact G.
 Qed.
 
 Lemma mon_step_ok i s c :
@@ -90,15 +101,18 @@ Proof.
   - exact (mon_mut i s _ (CAddAction a) eq_refl (add_action_like i a s) Hp).
   - (* Plan() *)
     unfold emit in *. unfold mon_step, mon_of.
-    destruct (emitted s) eqn:Hm.
-    + cbn [fst snd r_ret r_plan r_after of_err is_uae is_none andb m_emitted m_cur].
-      rewrite oerror_eqb_refl. now rewrite Hm.
-    + destruct (err s) as [e|] eqn:He.
-      * cbn [fst snd r_ret r_plan r_after of_err is_none andb m_emitted m_cur rclass_eqb oerror_eqb].
-        rewrite ?He. cbn [oerror_eqb]. rewrite error_eqb_refl. cbn [andb]. now rewrite ?Hm, ?He.
+    destruct (err s) as [e|] eqn:He.
+    + cbn [fst snd r_ret r_plan r_after of_err is_none andb m_emitted m_cur rclass_eqb]. rewrite ?He.
+      cbn [oerror_eqb]. rewrite error_eqb_refl. cbn [andb]. now rewrite ?He.
+    + destruct (emitted s) eqn:Hm.
+      * assert (E : err (set_err (EUseAfterEmit, i) s) = Some (EUseAfterEmit, i)) by (unfold set_err; now rewrite He).
+        assert (M : emitted (set_err (EUseAfterEmit, i) s) = true) by (unfold set_err; now rewrite He).
+        cbv zeta. cbn [fst snd r_ret r_plan r_after m_emitted m_cur]. rewrite ?E, ?He, ?Hm.
+        cbn [of_err is_uae is_none andb rclass_eqb]. rewrite ?E. cbn [of_err rclass_eqb].
+        rewrite error_eqb_refl. now rewrite ?E, ?M.
       * destruct (chain s) as [|f c]; [cbn in Hp; congruence|].
         cbn [fst snd r_ret r_plan r_after of_err is_none andb negb m_emitted m_cur rclass_eqb err emitted with_emitted].
-        rewrite ?He. cbn [is_none andb]. now rewrite ?Hm, ?He.
+        rewrite ?He, ?Hm. cbn [is_none andb]. now rewrite ?Hm, ?He.
 Qed.
 
 Lemma mon_run_ok l : forall i s,
@@ -127,4 +141,14 @@ Definition b2_witness : session :=
     CAddBlock {| ba_lab := 3; ba_name := NOk; ba_descr := NOk |};
     CPlan]).
 Lemma dev_B2_refutes : monitor b2_witness (run_session dev_only_B2 b2_witness) = false.
+Proof. vm_compute. reflexivity. Qed.
+
+(* B3: the builder as it was before 496ee11 breaks the property: New; Plan(); AddBlock("") ; Up(); Plan() -
+   three different errors, none of them kept *)
+Definition b3_witness : session :=
+  ({| pa_lab := 1; pa_name := NOk; pa_descr := NOk; pa_gid := GNone |},
+   [CPlan; CAddBlock {| ba_lab := 2; ba_name := NEmpty; ba_descr := NOk |}; CUp; CPlan]).
+Lemma pre_B3_refuted : monitor b3_witness (PreB3.run_session dev_none b3_witness) = false.
+Proof. vm_compute. reflexivity. Qed.
+Lemma post_B3_holds : monitor b3_witness (run_session dev_none b3_witness) = true.
 Proof. vm_compute. reflexivity. Qed.
